@@ -287,6 +287,21 @@ func mutate(r *rng, d []byte) []byte {
 }
 
 func corrC09(c *corrCtx) {
+	// ICC: many tags, distinct signatures, every one declaring the whole (genuinely present) data block
+	for _, sh := range [][2]int{{200, 20000}, {2000, 70000}} {
+		nt, bl := sh[0], sh[1]
+		hd := iccHeader(c.rng)
+		prof := append([]byte{}, hd[:]...)
+		prof = append(prof, be32(uint32(nt))...)
+		tdo := uint32(132 + 12*nt)
+		for k := 0; k < nt; k++ {
+			prof = append(prof, be32(0x74300000+uint32(k))...)
+			prof = append(prof, be32(tdo)...)
+			prof = append(prof, be32(uint32(bl))...)
+		}
+		prof = append(prof, c.rng.bytes(bl)...)
+		c09Case(c, "icc/shared-block", "icc", prof)
+	}
 	r := c.rng
 	type seed struct {
 		format string
